@@ -82,6 +82,9 @@ func vfRunClean(c *vfCtx, sc vfCleanScenario) *vfCleanObs {
 	}
 	dir := filepath.Join(root, dn)
 	sib := filepath.Join(root, "sibling.snap.d")
+	if dn == "pkg[1]" {
+		sib = filepath.Join(root, "pkg1") // the directory a glob reading of the name would match
+	}
 	os.MkdirAll(dir, 0o755)
 	os.MkdirAll(sib, 0o755)
 	// a sibling directory that no test addresses
